@@ -369,8 +369,8 @@ def _k3(model: Model, rep: Report):
                           what="the copied link does not point at the copy of the referenced operation", detail="link-map")
             else:
                 # the list handed over: [lookup[old] for old in ALL old references if old in lookup], as a comprehension or as the accumulator loop
-                from ..listflow import as_single_comp
-                comp = as_single_comp(p, val)
+                from ..listflow import as_single_comp, fuse_comp
+                comp = fuse_comp(as_single_comp(p, val))
                 ok = False
                 why = "reference list is not rebuilt through the lookup"
                 if comp[0] == "comp" and comp[1] == "list" and len(comp[3]) == 1:
